@@ -78,7 +78,6 @@ def run_gwf(args, cwd, cluster=None, input=None, in_process=True, extra_env=None
                            cwd=cwd, env=e, input=input, capture_output=True, text=True, timeout=timeout)
         return r.returncode, r.stdout, r.stderr
     from click.testing import CliRunner
-    import gwf.cli
     old_env = dict(os.environ)
     old_cwd = os.getcwd()
     old_path = list(sys.path)
@@ -88,6 +87,18 @@ def run_gwf(args, cwd, cluster=None, input=None, in_process=True, extra_env=None
         os.environ.update(env)
         os.chdir(cwd)
         reset_process_state()
+        import types
+        import gwf.cli
+        import gwf.backends.local as _local
+        # the backends compute their priority (which executables exist) when first imported: recompute it
+        # under THIS invocation's PATH, as a fresh gwf process would
+        for _name in ("slurm", "sge", "lsf"):
+            _mod = sys.modules.get("gwf.backends." + _name)
+            if _mod is not None:
+                _mod.setup = (_mod.create_backend, _mod.priority())
+        # never really wait for a worker pool that is not there (Client.connect retries with 2**n s sleeps)
+        if not getattr(_local.time, "_verif_shim", False):
+            _local.time = types.SimpleNamespace(sleep=lambda s: None, _verif_shim=True)
         try:
             runner = CliRunner(mix_stderr=False)
         except TypeError:
@@ -108,8 +119,11 @@ def run_gwf(args, cwd, cluster=None, input=None, in_process=True, extra_env=None
         os.environ.update(old_env)
         os.chdir(old_cwd)
         sys.path[:] = old_path
+        # forget only modules loaded from the project directory (the workflow file and its helpers);
+        # never un-import library / C-extension modules (re-initialising pyexpat crashes the interpreter)
         for m in set(sys.modules) - old_mods:
-            if not m.startswith(("gwf", "click", "encodings", "importlib")):
+            f = getattr(sys.modules.get(m), "__file__", None) or ""
+            if f.startswith(os.path.realpath(cwd) + os.sep) or f.startswith(cwd + os.sep):
                 sys.modules.pop(m, None)
         reset_process_state()
 
